@@ -118,6 +118,11 @@ def verdict(contract, module, env, outcome):
                     violated.append('returned normally although %s is required (%s)' % (cls, cond))
         else:
             names = outcome['cls']
+            if only and not getattr(contract, 'exception_free', False) and \
+                    names[0] in ('AttributeError', 'TypeError', 'NotImplementedError', 'NameError'):
+                # a harness with fakes in place of the abstract callees: such an exception says that the real code now
+                # uses something the fakes do not provide - that is a limit of the harness, not a failing input
+                return 'error', ['harness limit: %s: %r' % (names[0], outcome.get('exc'))]
             declared = [d for d in contract.raises if d in names]
             for e in ([] if only else contract.ensures_exc + contract.ensures_all):
                 if not eval(e, ev):
